@@ -5,7 +5,9 @@
 (*   index {none, 0, 1, 2, 3} x alignment {none, <, >, fill< , fill>} with  *)
 (*   fills {0 * blank x b : < # 7} x width {none, 1, 4, 7, 10} x radix      *)
 (*   {none, b, o, x, X}, with and without the optional colon,               *)
-(* placed between literal text, applied to each of the argument lists       *)
+(* placed between literal text (and, for a set of specifiers that set radix, *)
+(* width, fill or alignment, paired with plain ones in both orders),        *)
+(* applied to each of the argument lists                                   *)
 (* ArgSets (index into a table the driver shares).  While enumerating, TLC  *)
 (* checks laws of the reference renderer on every case: a rendered piece is *)
 (* at least as wide as the width asked for, escapes render as one brace,    *)
@@ -35,7 +37,15 @@ Specs == {SpecText(ix, al, w, r, TRUE) : ix \in 1..Len(Idxs), al \in 1..Len(Alig
 Cases == {[fmt |-> <<91>> \o sp \o <<93>>, as |-> a] : sp \in Specs, a \in 1..Len(ArgSets)}
          \cup {[fmt |-> sp \o <<LBrace, LBrace>> \o sp \o <<RBrace, RBrace>> \o <<LBrace, 49, RBrace>> \o sp, as |-> a] :
                  sp \in {SpecText(1, al, w, 1, TRUE) : al \in {1, 4, 14}, w \in {1, 3}}, a \in 1..Len(ArgSets)}
-CaseSeq == SetToSeq(Cases)
+\* two specifiers in one string, in both orders: what one specifier sets (radix with and without the colon, width,
+\* fill, alignment) must not reach the next one (Format.tla parses every specifier from a clean state)
+Setters == {SpecText(1, 1, 1, r, FALSE) : r \in 2..5} \cup {SpecText(1, 1, 1, r, TRUE) : r \in 2..5}
+           \cup {SpecText(1, al, 3, 1, TRUE) : al \in {2, 3, 5, 14}} \cup {SpecText(1, 4, 4, 4, TRUE)}
+Plain == {SpecText(1, 1, 1, 1, FALSE), SpecText(2, 1, 1, 1, FALSE), SpecText(3, 1, 1, 1, FALSE), SpecText(1, 1, 1, 1, TRUE),
+          SpecText(1, 1, 1, 4, FALSE), SpecText(1, 1, 3, 1, TRUE), SpecText(1, 3, 3, 1, TRUE)}
+PairCases == {[fmt |-> a \o <<32>> \o b, as |-> n] : a \in Setters, b \in Plain, n \in 1..Len(ArgSets)}
+             \cup {[fmt |-> b \o <<32>> \o a \o <<32>> \o b, as |-> n] : a \in Setters, b \in Plain, n \in 1..Len(ArgSets)}
+CaseSeq == SetToSeq(Cases \cup PairCases)
 
 AsArgs(a) == [i \in 1..Len(ArgSets[a]) |-> [v |-> ArgSets[a][i], shown |-> <<63>>]]
 \* laws of the renderer, checked on every enumerated case
